@@ -47,6 +47,7 @@ pub fn alphabet() -> Vec<BOp> {
         BOp::ExtInstVia,
         BOp::DecorateFunction(0),
         BOp::BeginFunctionId(7),
+        BOp::Phi,
     ]
 }
 
@@ -113,6 +114,32 @@ pub fn run(tier: Tier) -> Run {
         cont_transitions += e.transitions;
     }
     run.outcome("continuations_from_prebuilt_modules", cont_transitions);
+    // ---- repetition: every call of the alphabet 300 times in a row after each of four prefixes (a count that only a long,
+    //      unshortenable history reaches: the 256th parameter, the 256th instruction of a block ..), every step checked
+    {
+        use rayon::prelude::*;
+        let pres: Vec<Vec<BOp>> = vec![vec![], vec![BOp::BeginFunction], vec![BOp::BeginFunction, BOp::BeginBlock], vec![BOp::BeginFunction, BOp::BeginBlock, BOp::Ret]];
+        let work: Vec<(usize, usize)> = (0..pres.len()).flat_map(|p| (0..alpha.len()).map(move |o| (p, o))).collect();
+        let steps: Vec<xs::Step> = work
+            .par_iter()
+            .map(|&(p, o)| {
+                let mut h = pres[p].clone();
+                for _ in 0..300 {
+                    h.push(alpha[o].clone());
+                }
+                bsys::to_step("C12", &h, bsys::replay(&h))
+            })
+            .collect();
+        for st in steps {
+            cont_transitions += 300;
+            for mut v in st.viols {
+                v.what = v.what.chars().take(200).collect::<String>() + " [...] " + &v.what.chars().rev().take(400).collect::<String>().chars().rev().collect::<String>();
+                v.key = format!("{}:after-repetition", v.key);
+                run.add(v);
+            }
+        }
+        run.outcome("repetition_histories", work.len() as u64);
+    }
     // ---- names: every sequence over {name(function k | an unrelated id, text), select_function_by_name(text)} for ten texts
     //      (prefixes of each other, multi-byte characters, mangled forms, the empty string) + the structural calls
     {
